@@ -66,7 +66,7 @@ CLAIMS = {
             'limit); digestion bounds: protein length <= 6, <= 2 sites (thorough 3).'),
     'C11': (True, CH,
             'Coordinate conversions are mutually inverse and reject introns for UNBOUNDED symbolic exon '
-            'coordinates (1-3 exons, thorough 4, both strands); extracted sequences equal the strand-corrected '
+            'coordinates (1-3 exons, thorough 4, both strands); extracted transcript, gene and CDS (get_cdna_sequence, 2 pieces) sequences equal the strand-corrected '
             'genome elementwise; ORF start/end and Sec positions agree with the CDS/Sec features for GENCODE-style, '
             'ENSEMBL-style and UTR-less annotations; pointer cache '
             'inductive step from any valid state; GTF byte-range pointers; GTF line round trip; whole-annotation '
@@ -154,7 +154,8 @@ CLAIMS = {
             'Transcript selection of callNovelORF equals the documented rule for all option values (biotype lists, '
             '--coding-novel-orf, --min-tx-length, proteome membership); every peptide passes the pool filter; ORF FASTA '
             'coordinates translate to the listed sequence (end = start + 3*len, frame = start % 3). Traversal stage on CONCRETE graphs with SYMBOLIC limits: for a fixed small transcript the real callNovelORF traversal equals the definitional digest for every miscleavage 0..1 (thorough 2-3) and ALL integer min/max lengths of every ATG-to-stop ORF in all three frames minus the canonical pool (nested ATGs, run-off ORF, '
-            'M-removed canonical twin).',
+            'M-removed canonical twin). W>F kernel: for every peptide of length <= 4 over {A,F,W} and unbounded symbolic '
+            'length limits exactly the 2^k - 1 substituted forms are added.',
             'PARTIAL: the peptide == definitional-digest equality is decided on ONE fixed non-coding transcript only.'),
     'C09': (True, CH,
             'W>F enumeration: exactly the 2^w - 1 substitution sets with headers naming the substituted positions; SECT '
@@ -177,7 +178,8 @@ CLAIMS = {
             'Source-set order equals "fewer sources first, then lexicographic by priority" for unbounded symbolic '
             'priorities; split decision for one peptide over every source assignment / priority order / max_groups / '
             'additional split, incl. top-priority sets of 1..3 sources matched by several --additional-split sets at once; '
-            'merge union (pool and mergeFasta command loop over 1..4 files); encode/decoy header inverse and dictionary '
+            'merge union (pool and mergeFasta command loop over 1..4 files; --dedup-header kernel drops only entries equal '
+            'to a kept one up to the trailing index, 3 entries over 12 texts); encode/decoy header inverse and dictionary '
             'restore; label syntax round trip; summarizeFasta totals add up and equal the splitFasta database sizes for 3 '
             'peptides over every source assignment and priority order.',
             'Kernel level with small pools (<= 3 peptides, 3 sources); FASTA text I/O is stubbed.'),
